@@ -62,7 +62,13 @@ def check(case, rec):
         pipeline.trusted_burst_mask(case_t, x)
     df_t = pipeline.analyse(case_t, x)
     df_p = pipeline.analyse(case_p, -x)
-    if case.get('same_object'):
+    same_object = bool(case.get('same_object'))
+    if same_object:
+        try:
+            pipeline.expected_cycles(case_p, x)          # the peak-centred analysis of x itself has its own precondition
+        except Discard:
+            same_object = False
+    if same_object:
         # both centrings asked of ONE array object, one right after the other (the usual exploratory workflow)
         import warnings
         from bycycle.features import compute_features
